@@ -1,7 +1,8 @@
 (* C02 - Isotonic quantile regression returns a monotone minimiser of the pinball loss. *)
 From Coq Require Import QArith Qreals Reals List.
 Import ListNotations.
-From MD Require Import lib.QLists model.Functionals model.Gpava model.Isotonic theory.Optimal theory.IsoOptimal proofs.IsoQuantProps.
+From MD Require Import lib.QLists model.Functionals model.Gpava model.Isotonic theory.Optimal theory.IsoOptimal
+  proofs.IsoQuantProps theory.MaxMin proofs.IsoMaxMin.
 
 Theorem C02_total : forall y inc lvl, y <> [] -> (0 < lvl /\ lvl < 1)%Q ->
   exists x r, isotonic_regression y None inc IFquantile lvl = IOk (x, r).
@@ -36,13 +37,82 @@ Theorem C02_block_flat : forall a (Ha : (0 < a /\ a < 1)%Q) B s, B <> [] ->
 Proof. exact block_flat. Qed.
 Print Assumptions C02_block_flat.
 
-(* partial: "between the smallest and the largest optimal solution" - proved is the
-   lower bound by the lower-quantile solution *)
+(* result >= the lower-quantile solution (implied by C02_between below) *)
 Theorem C02_ge_lower_partial : forall a (Ha : (0 < a /\ a < 1)%Q) l x r stk, quantile_path a l = Some (x, r) ->
   gpava_blocks elt ey (qlow a) l = Some stk -> Forall2 Qle (expand elt stk) x.
 Proof. exact quantile_path_ge_lower. Qed.
 Print Assumptions C02_ge_lower_partial.
-(* Full statement kept visible (not proved): the lower-quantile solution is the
-   pointwise smallest optimal solution and the result is <= the pointwise largest
-   one (max-min with the upper quantile).  harness/judge.py evaluates both bounds
-   exactly whenever a case is judged. *)
+(* "optimal" in the requested direction: a monotone real sequence of the right length whose
+   total pinball loss is minimal among all such sequences *)
+Theorem C02_opt_dir_def : forall inc a y u, opt_dir inc a y u <->
+  (length u = length y /\ monoR inc u /\
+   forall v : list R, length v = length y -> monoR inc v ->
+     (lossPin a (udata y) v >= lossPin a (udata y) u)%R).
+Proof. exact opt_dir_def. Qed.
+Print Assumptions C02_opt_dir_def.
+
+(* the result lies pointwise between the smallest and the largest optimal solution:
+   there are optimal xl, xu with xl <= u <= xu pointwise for EVERY optimal u, the result
+   is optimal, and xl <= x <= xu.  Both directions. *)
+Theorem C02_between : forall y inc lvl x r, y <> [] -> (0 < lvl /\ lvl < 1)%Q ->
+  isotonic_regression y None inc IFquantile lvl = IOk (x, r) ->
+  exists xl xu : list Q,
+    opt_dir inc lvl y (map Q2R xl) /\ opt_dir inc lvl y (map Q2R xu) /\
+    opt_dir inc lvl y (map Q2R x) /\
+    (forall u, opt_dir inc lvl y u -> Forall2 Rle (map Q2R xl) u /\ Forall2 Rle u (map Q2R xu)) /\
+    Forall2 Qle xl x /\ Forall2 Qle x xu.
+Proof. exact iso_quantile_between. Qed.
+Print Assumptions C02_between.
+
+(* the same on the quantile path, naming the two extremal solutions:
+   lower_solution a l = expansion of the lower-quantile GPAVA blocks,
+   upper_solution a l = minus the reversed lower solution of the negated, reversed data at level 1-a *)
+Theorem C02_path_between : forall a (Ha : (0 < a /\ a < 1)%Q) l x r,
+  quantile_path a l = Some (x, r) ->
+  exists xl xu : list Q,
+    lower_solution a l = Some xl /\ upper_solution a l = Some xu /\
+    is_opt a l (map Q2R xl) /\ is_opt a l (map Q2R xu) /\ is_opt a l (map Q2R x) /\
+    (forall u, is_opt a l u -> Forall2 Rle (map Q2R xl) u /\ Forall2 Rle u (map Q2R xu)) /\
+    Forall2 Qle xl x /\ Forall2 Qle x xu.
+Proof. exact quantile_path_between. Qed.
+Print Assumptions C02_path_between.
+
+Theorem C02_lower_smallest : forall a (Ha : (0 < a /\ a < 1)%Q) l xl,
+  lower_solution a l = Some xl ->
+  is_opt a l (map Q2R xl) /\ forall u, is_opt a l u -> Forall2 Rle (map Q2R xl) u.
+Proof. exact lower_solution_smallest. Qed.
+Print Assumptions C02_lower_smallest.
+
+Theorem C02_upper_largest : forall a (Ha : (0 < a /\ a < 1)%Q) l xu,
+  upper_solution a l = Some xu ->
+  is_opt a l (map Q2R xu) /\ forall u, is_opt a l u -> Forall2 Rle u (map Q2R xu).
+Proof. exact upper_solution_largest. Qed.
+Print Assumptions C02_upper_largest.
+
+Theorem C02_le_upper : forall a (Ha : (0 < a /\ a < 1)%Q) l x r xu,
+  quantile_path a l = Some (x, r) -> upper_solution a l = Some xu -> Forall2 Qle x xu.
+Proof. exact quantile_path_le_upper. Qed.
+Print Assumptions C02_le_upper.
+
+(* world Q, no axioms: the smallest solution is the max-min (= min-max) of the lower quantile,
+   the largest solution the max-min (= min-max) of the upper quantile *)
+Theorem C02_lower_is_maxmin_qlow : forall a (Ha : (0 < a /\ a < 1)%Q) l xl,
+  lower_solution a l = Some xl -> forall i, (i < length l)%nat ->
+    saddle (qlow a) l i (nth i xl 0) /\
+    (nth i xl 0 == maxmin (qlow a) l i)%Q /\ (nth i xl 0 == minmax (qlow a) l i)%Q.
+Proof. exact lower_solution_saddle. Qed.
+Print Assumptions C02_lower_is_maxmin_qlow.
+
+Theorem C02_upper_is_maxmin_qupp : forall a (Ha : (0 < a /\ a < 1)%Q) l xu,
+  upper_solution a l = Some xu -> forall i, (i < length l)%nat ->
+    saddle (qupp a) l i (nth i xu 0) /\
+    (nth i xu 0 == maxmin (qupp a) l i)%Q /\ (nth i xu 0 == minmax (qupp a) l i)%Q.
+Proof. exact upper_solution_saddle. Qed.
+Print Assumptions C02_upper_is_maxmin_qupp.
+
+(* the two bounds exactly as harness/judge.py evaluates them *)
+Theorem C02_between_maxmin : forall a (Ha : (0 < a /\ a < 1)%Q) l x r,
+  quantile_path a l = Some (x, r) -> forall i, (i < length l)%nat ->
+    (maxmin (qlow a) l i <= nth i x 0)%Q /\ (nth i x 0 <= maxmin (qupp a) l i)%Q.
+Proof. exact quantile_path_between_maxmin. Qed.
+Print Assumptions C02_between_maxmin.
